@@ -148,6 +148,13 @@ class Ext:
         return NotImplemented
 
 
+class SuperProxy:
+    """super() inside a method of class (mod, cname), called on the object obj"""
+
+    def __init__(self, obj, mod, cname):
+        self.obj, self.mod, self.cname = obj, mod, cname
+
+
 class ExcVal:
     def __init__(self, typ, args=()):
         self.typ = typ
@@ -816,6 +823,19 @@ class Interp:
         return self.getattr(self.ev(n.value, env), n.attr, n)
 
     def getattr(self, v, attr, node=None):
+        if isinstance(v, SuperProxy):
+            order = self.mro(v.obj.mod, v.obj.cls)
+            if (v.mod, v.cname) not in order:
+                raise Unsupported(f'super(): {v.mod}.{v.cname} is not in the method resolution order of {v.obj.cls}')
+            for m_, c_ in order[order.index((v.mod, v.cname)) + 1:]:
+                cnode, _, _ = intake.func(f'{m_}.{c_}')
+                for b in cnode.body:
+                    if isinstance(b, ast.FunctionDef) and b.name == attr and not b.decorator_list:
+                        sub = self if m_ == self.mod else Interp(self.ctx, m_)
+                        return Closure(b, {}, sub, qualname=f'{m_}.{c_}.{attr}', self_obj=v.obj)
+            if attr == '__init__':
+                return LibFn('object.__init__')        # object.__init__(self): nothing to do
+            raise Unsupported(f'super().{attr}: not a plain method of a repo base class')
         if isinstance(v, Ext):
             r = v.cx_getattr(self, attr)
             if r is NotImplemented:
@@ -917,38 +937,59 @@ class Interp:
             raise _Raise(ExcVal('AttributeError', (f"'NoneType' object has no attribute '{attr}'",)))
         raise Unsupported(f'attribute {attr} of {type(v).__name__}')
 
+    def repo_bases(self, mod, cname):
+        """the base classes of a repo class that are repo classes themselves, in the order written"""
+        try:
+            cnode, _, _ = intake.func(f'{mod}.{cname}')
+        except intake.IntakeError:
+            return []
+        out = []
+        menv = self.module_env(mod)
+        for base in getattr(cnode, 'bases', []):
+            bn = base.id if isinstance(base, ast.Name) else (base.attr if isinstance(base, ast.Attribute) else None)
+            if bn and isinstance(menv.get(bn), ClassRef):
+                out.append((menv[bn].mod, menv[bn].name))
+            elif bn and isinstance(menv.get(bn), tuple) and menv[bn][0] == 'repo':
+                out.append((menv[bn][1], menv[bn][2]))
+            elif isinstance(base, ast.Attribute) and isinstance(base.value, ast.Name):
+                r = menv.get(base.value.id)
+                if isinstance(r, ModRef) and r.name.startswith('emg3d.'):
+                    out.append((r.name.split('.', 1)[1], base.attr))
+        return out
+
+    def mro(self, mod, cname):
+        """C3 linearisation over the repo classes (third-party bases are left out)"""
+        if mod is None:
+            return []
+        seqs = [self.mro(m_, c_) for m_, c_ in self.repo_bases(mod, cname)] + [list(self.repo_bases(mod, cname))]
+        out = [(mod, cname)]
+        seqs = [list(x) for x in seqs if x]
+        while seqs:
+            for sq in seqs:
+                head = sq[0]
+                if not any(head in other[1:] for other in seqs):
+                    break
+            else:
+                raise Unsupported(f'inconsistent class hierarchy of {mod}.{cname}')
+            out.append(head)
+            seqs = [[x for x in sq if x != head] for sq in seqs]
+            seqs = [sq for sq in seqs if sq]
+        return out
+
     def find_method(self, obj, name):
-        """method or property of a repo class (with single inheritance inside the repo)"""
-        mod, cname = obj.mod, obj.cls
-        seen = 0
-        while mod is not None and seen < 5:
-            seen += 1
+        """method or property of a repo class, looked up along its method resolution order"""
+        for mod, cname in self.mro(obj.mod, obj.cls)[:12]:
             try:
                 cnode, _, _ = intake.func(f'{mod}.{cname}')
             except intake.IntakeError:
                 return None
-            for b in cnode.body:
+            for b in getattr(cnode, 'body', []):
                 if isinstance(b, ast.FunctionDef) and b.name == name:
                     is_prop = any((isinstance(d, ast.Name) and d.id == 'property') for d in b.decorator_list)
                     is_setter = any(isinstance(d, ast.Attribute) and d.attr == 'setter' for d in b.decorator_list)
                     if is_setter:
                         continue
                     return b, mod, cname, is_prop
-            nxt = None
-            for base in cnode.bases:
-                bn = base.id if isinstance(base, ast.Name) else (base.attr if isinstance(base, ast.Attribute) else None)
-                menv = self.module_env(mod)
-                if bn and isinstance(menv.get(bn), ClassRef):
-                    nxt = (menv[bn].mod, menv[bn].name)
-                elif bn and isinstance(menv.get(bn), tuple) and menv[bn][0] == 'repo':
-                    nxt = (menv[bn][1], menv[bn][2])
-                elif isinstance(base, ast.Attribute) and isinstance(base.value, ast.Name):
-                    r = menv.get(base.value.id)
-                    if isinstance(r, ModRef) and r.name.startswith('emg3d.'):
-                        nxt = (r.name.split('.', 1)[1], base.attr)
-            if nxt is None:
-                return None
-            mod, cname = nxt
         return None
 
     def find_setter(self, obj, name):
@@ -1118,6 +1159,12 @@ class Interp:
 
     # ------------------------------------------------ calls
     def ev_Call(self, n, env):
+        if isinstance(n.func, ast.Name) and n.func.id == 'super' and 'super' not in env:
+            # zero-argument super() inside a method of a repo class: the next classes in the method resolution order of type(self)
+            me = env.get('__method_of__')
+            if n.args or n.keywords or me is None or not isinstance(me[0], Obj):
+                raise Unsupported('super() outside a method of a repo class, or with arguments')
+            return SuperProxy(me[0], me[1], me[2])
         f = self.ev(n.func, env)
         args = []
         for a in n.args:
@@ -1195,6 +1242,8 @@ class Interp:
         if q:
             ctx.event('call_inlined', name=q, args=list(args), kwargs=dict(kwargs), self_obj=clo.self_obj, line=getattr(node, 'lineno', 0))
         env = dict(clo.env)
+        if clo.self_obj is not None and q and q.count('.') >= 2:
+            env['__method_of__'] = (clo.self_obj, q.split('.')[0], q.split('.')[1])
         a = fn.args
         params = [p.arg for p in a.args]
         allargs = ([clo.self_obj] if clo.self_obj is not None else []) + list(args)
@@ -1491,7 +1540,13 @@ class Interp:
         if isinstance(t, ast.Name):
             env[t.id] = v
         elif isinstance(t, (ast.Tuple, ast.List)):
-            vals = self.iterate(v) if not isinstance(v, Opaque) else [Opaque('unpack') for _ in t.elts]
+            if isinstance(v, NDArr) and not isinstance(v, Ext):
+                # an array of unknown length unpacked into k names: k representative rows (its length is taken to be k -- anything else is a
+                # ValueError of the code under contract, not a path of its own)
+                self.ctx.event('iterate-array', store=v.store)
+                vals = [NDArr(v.store, view=('row', v.view), dtype=v.dtype) for _ in t.elts]
+            else:
+                vals = self.iterate(v) if not isinstance(v, Opaque) else [Opaque('unpack') for _ in t.elts]
             if len(vals) != len(t.elts):
                 raise _Raise(ExcVal('ValueError', ('unpack',)))
             for tt, vv in zip(t.elts, vals):
